@@ -24,7 +24,9 @@ pub struct Plan {
 pub fn plan(rng: &mut Rng, max_requests: usize, drop_at_end: bool) -> Plan {
     let requests = rng.range(50.min(max_requests), max_requests);
     let slots = rng.range(1, 4);
-    let followers = if rng.chance(1, 3) { 2 } else { 1 };
+    // (drawn only for C11 so that C12's scenarios are unchanged)
+    let churn = !drop_at_end && rng.chance(1, 3);
+    let followers = if churn { rng.range(2, 3) } else if rng.chance(1, 3) { 2 } else { 1 };
     let mut joins = vec![];
     for _ in 0..followers {
         let j = match rng.below(4) {
@@ -43,6 +45,7 @@ pub fn plan(rng: &mut Rng, max_requests: usize, drop_at_end: bool) -> Plan {
             check_every: rng.range(15, 80),
             drop_at_end,
             ambiguous_values,
+            churn,
         },
         variant: Variant {
             explicit_persistence: rng.chance(1, 2),
@@ -94,7 +97,7 @@ pub fn run(ctx: &Ctx) -> Evidence {
     let mut ev = ctx.evidence("C11", "exploration");
     let histories = ctx.tier.pick(1000usize, 12000usize);
     let max_requests = 300usize;
-    ev.rule = "seeded random leader histories of 50-300 requests from 1-4 sessions (set, cset chains, rejected writes, delete, pdelete, imports with CAS entries, pipelined bursts, connects, graveGoods/lastWill registrations, rejected $SYS writes, disconnects) against a real leader with 1-2 real followers joining at position 0, early or anywhere; after every join, about every 15-80 requests and at the end a marker write is awaited on each follower and leader and follower are compared (pget # minus $SYS, cget per key, $SYS/clients/?/graveGoods|lastWill), then 11 kinds of direct writes are offered to the follower (NotLeader + unchanged snapshot incl. $SYS). A history is non-trivial if after a follower joined at least one request was accepted and one rejected and at least one key was compared at a quiescent point; distinct = distinct step lists.".into();
+    ev.rule = "seeded random leader histories of 50-300 requests from 1-4 sessions (set, cset chains, rejected writes, delete, pdelete, imports with CAS entries, pipelined bursts, connects, graveGoods/lastWill registrations, rejected $SYS writes, disconnects) against a real leader with 1-2 real followers joining at position 0, early or anywhere (in a third of the histories 2-3 followers, some of which are stopped at quiescent points and replaced by new nodes later); after every join, about every 15-80 requests and at the end a marker write is awaited on each follower and leader and follower are compared (pget # minus $SYS, cget per key, $SYS/clients/?/graveGoods|lastWill), then 11 kinds of direct writes are offered to the follower (NotLeader + unchanged snapshot incl. $SYS). A history is non-trivial if after a follower joined at least one request was accepted and one rejected and at least one key was compared at a quiescent point; distinct = distinct step lists.".into();
     let perturb_seed = enable_perturbation(ctx);
     let base = Rng::new(ctx.seed ^ 0xC11);
     let quirks = Quirks {
@@ -113,6 +116,7 @@ pub fn run(ctx: &Ctx) -> Evidence {
         let steps = cl::generate(&mut rng, &p.gen_params, &quirks);
         let hash = cl::scenario_hash(&steps);
         let mut attempt = 0;
+        let mut first_why: Option<String> = None;
         loop {
             attempt += 1;
             let dir = ctx.scratch(&format!("c11-{i}-{attempt}"));
@@ -125,7 +129,25 @@ pub fn run(ctx: &Ctx) -> Evidence {
             if let Verdict::Inconclusive(why) = &verdict {
                 if attempt < 2 {
                     ev.count("inconclusive_first_attempts", 1);
+                    first_why = Some(why.clone());
                     continue;
+                }
+                // A follower that ends by itself while its leader runs and nobody stopped it decides nothing
+                // when seen once (the environment may have ended it); the same follower ending at the same
+                // step of the same history on fresh servers a second time is the leader closing the sync
+                // connection of a healthy follower: that follower can never converge.
+                let tag = |w: &str| w.strip_prefix("follower-ended@").and_then(|r| r.split(": ").next().map(str::to_owned));
+                if let (Some(a), Some(b)) = (first_why.as_deref().and_then(tag), tag(why)) {
+                    if a == b {
+                        ev.eval(None);
+                        ev.violation(
+                            "C11: a follower that nobody stopped lost its sync connection and ended while the leader kept running (same follower, same step, twice on fresh servers)".to_owned(),
+                            json!({"history": i, "seed": ctx.seed, "where": a, "first_run": first_why, "second_run": why,
+                                   "plan": {"joins": p.gen_params.joins, "followers": p.followers, "churn": p.gen_params.churn, "channel_buffer": p.variant.channel_buffer},
+                                   "history_steps": cl::describe_steps(&steps[..executed.min(steps.len())])}),
+                        );
+                        break;
+                    }
                 }
                 ev.inconclusive += 1;
                 ev.eval(None);
